@@ -36,13 +36,17 @@ def gen_recipe(rng: random.Random, tier="quick", max_depth=1):
         spc = rng.choice([1, 2, 8, 16, 63])
         nsec = rng.choice([1, 2, 3, 5, 8]) * spc * rng.choice([1, 1, 3]) + (rng.randrange(spc) if rng.random() < 0.3 else 0)
         nsec = max(1, nsec)
+        # an image may be larger than the [Start, End) range of its storage (capacity rounded up to whole clusters, a plain file
+        # preallocated in bigger steps): only End - Start sectors of it belong to the disk
+        over = rng.choice([0, 0, 0, (spc - nsec % spc) % spc or spc, 8, 3])
         images = []
         for d in range(depth):       # d = 0 is the root layer
             plain = (d == 0 and rng.random() < 0.35) if depth > 1 else rng.random() < 0.4
             ncl = (nsec + spc - 1) // spc
-            layer = None if plain else hds.gen_layer(rng, rng.choice([1, 2]), spc, ncl + rng.choice([0, 1]), nsec, rng.randrange(256))
+            ncl = (nsec + over + spc - 1) // spc
+            layer = None if plain else hds.gen_layer(rng, rng.choice([1, 2]), spc, ncl + rng.choice([0, 1]), nsec + over, rng.randrange(256))
             images.append({"guid": chain[len(chain) - 1 - d], "type": "Plain" if plain else "Compressed",
-                           "file": f"st{s}.{d}." + ("hdd" if plain else "hds"), "layer": layer, "seed": rng.randrange(256)})
+                           "file": f"st{s}.{d}." + ("hdd" if plain else "hds"), "layer": layer, "seed": rng.randrange(256), "extra": over})
         # other snapshots' images (must not be used)
         extra = [{"guid": sh[0], "type": "Compressed", "file": f"st{s}.x{j}.hds", "layer": hds.gen_layer(rng, 2, spc, (nsec + spc - 1) // spc, nsec, rng.randrange(256)), "seed": 1}
                  for j, sh in enumerate(shots) if sh[0] not in chain]
@@ -90,8 +94,8 @@ class Truth:
                 n = (s["end"] - s["start"]) * 512
                 if im["type"] == "Plain":
                     img = Image()
-                    img.put_pat(0, n, im["seed"])
-                    img.finish(n)
+                    img.put_pat(0, n + im.get("extra", 0) * 512, im["seed"])
+                    img.finish(n + im.get("extra", 0) * 512)
                     layers.append(("P", im, img, None))
                 else:
                     img, loc = hds.build_layer(im["layer"])
